@@ -65,6 +65,57 @@ pub fn convert_ascii<const L: usize>() {
     std::mem::forget((o1, o2, o3, o4, buf));
 }
 
+/// The representation decision on its own (no grapheme segmentation is run): for every string of
+/// L symbolic bytes (ASCII or not - non-ASCII bytes are only looked at by `is_ascii`), the private
+/// decision function says "ASCII form" exactly when all bytes are ASCII and no CR LF pair occurs.
+/// (The constructors themselves contain the call of the segmentation code, which symbolic execution
+/// enters whatever the decision: they are exercised by convert_ascii / convert_crlf_tail.)
+pub fn decision<const L: usize>() {
+    let raw: [u8; L] = sym::bytes();
+    let mut ascii = true;
+    let mut crlf = false;
+    let mut i = 0;
+    while i < L {
+        if raw[i] >= 128 {
+            ascii = false;
+        }
+        if raw[i] == b'\r' && i + 1 < L && raw[i + 1] == b'\n' {
+            crlf = true;
+        }
+        i += 1;
+    }
+    // safety: only is_ascii / a byte search look at the bytes (no char decoding happens on this path)
+    let text = unsafe { std::str::from_utf8_unchecked(&raw) };
+    let d = crate::utf32_str::verif_has_ascii_graphemes(text);
+    check!(d == (ascii && !crlf), "C17 the ASCII form is chosen exactly when the string is ASCII and contains no CR LF pair");
+    cover!(crlf && ascii, "ASCII string with a CR LF pair");
+    cover!(!crlf && ascii && L > 0, "plain ASCII string");
+    cover!(!ascii, "string with a non-ASCII byte");
+}
+
+/// Text that certainly takes the grapheme path: L symbolic ASCII bytes followed by a concrete CR LF.
+/// (The segmentation tables are searched with symbolic keys: L is kept very small.)
+pub fn convert_crlf_tail<const L: usize, const T: usize>() {
+    let head: [u8; L] = sym::ascii_arr();
+    let mut raw = [0u8; T];
+    let mut i = 0;
+    while i < L {
+        raw[i] = head[i];
+        i += 1;
+    }
+    raw[L] = b'\r';
+    raw[L + 1] = b'\n';
+    let text = unsafe { std::str::from_utf8_unchecked(&raw) };
+    let (want, n, crlf) = expected_ascii(&raw);
+    let mut buf = Vec::with_capacity(T + 1);
+    let a = Utf32Str::new(text, &mut buf);
+    check!(crlf && !a.is_ascii(), "C17 the ASCII form is produced exactly when the string is ASCII and contains no CR LF pair");
+    check!(a.len() == n, "C17 the length is the number of grapheme clusters (CR LF is one)");
+    check!(same_content(a, &want, n), "C17 one character per cluster: the byte itself, or a line feed for CR LF");
+    cover!(L > 0 && head[0] == b'\r', "a lone CR before the CR LF pair");
+    std::mem::forget(buf);
+}
+
 /// slicing, indexing and iteration agree with the content (both representations)
 pub fn views<const L: usize>(unicode: bool) {
     let raw: [u8; L] = sym::ascii_arr();
@@ -109,6 +160,11 @@ pub fn views<const L: usize>(unicode: bool) {
 }
 
 harnesses! {
+    decision_l4 [8] => decision::<4>();
+    decision_l6 [10] => decision::<6>();
+    convert_crlf_tail_l0 [8] => convert_crlf_tail::<0, 2>();
+    convert_crlf_tail_l1 [8] => convert_crlf_tail::<1, 3>();
+    convert_crlf_tail_l2 [8] => convert_crlf_tail::<2, 4>();
     convert_ascii_l2 [8] => convert_ascii::<2>();
     convert_ascii_l3 [8] => convert_ascii::<3>();
     convert_ascii_l4 [8] => convert_ascii::<4>();
